@@ -29,7 +29,7 @@
     model: that call remains presupposed.  (D3) allocation failure is not modelled at Tier B: add / replace are
     stated for a successful copy of the key.
     [Second round, sections 9-10 at the end of this file: D2 is now transliterated and proved (overwrite_item:
-    TB_patch_root_overwrite, TB_patch_root_remove, with counterexamples outside the hypotheses), and
+    TB_patch_root_overwrite — for the code after the repair f953f57 —, TB_patch_root_remove, with counterexamples outside the hypotheses), and
     replace-in-object and duplicate are composed end to end (TB_e2e_replace_in_object, TB_e2e_duplicate).]
 
     Sections 7-8 compose the two halves END TO END (heap-level code on [WF h F] |-> value-level primitive on
@@ -729,12 +729,14 @@ Print Assumptions TB_nonvacuous_heap_runs.
 (** SECOND ROUND (TierBridgeOverwrite*.v, TierBridgeE2E2.v).  D2 is no longer presupposed: [overwrite_item] of
     cJSON_Utils.c and the statement sequences of [apply_patch] that call it for the path "" are transliterated
     on the heap (TierBridgeOverwriteDefs.v: [overwrite_item root (links, fields)] with the replacement BY VALUE,
-    [patch_root_overwrite object value] = overwrite_item(object, *value); cJSON_free(value); free and clear
-    object->string, [patch_root_remove object] = overwrite_item(object, invalid)) and proved against the forest:
+    [patch_root_overwrite object value] = overwrite_item(object, *value); cJSON_free(value); drop object->string
+    (released unless constant); clear cJSON_StringIsConst — the code AFTER the repair f953f57;
+    [patch_root_overwrite_pinned]: the same before the repair (key released unconditionally);
+    [patch_root_remove object] = overwrite_item(object, invalid)) and proved against the forest:
     [r] the document root with data [dr], children [csr]; [x] the detached replacement with data [dx], children
     [csx]; [key_owned d]: a key, if any, is not a cJSON_StringIsConst one; [ov_released] / [patch_released]: the
     blocks released, in order; [overwrite_root r x dx csx F]: the forest in which [r] carries [dx] without key
-    and the children [csx], the old tree of [r] and the shell [x] gone; [put_struct r l nd h]: both parts of
+    and without the cJSON_StringIsConst flag ([rd_unnamed dx]) and the children [csx], the old tree of [r] and the shell [x] gone; [put_struct r l nd h]: both parts of
     the struct stored at [r]. *)
 From CJ Require Import CoreRefineDelete CoreRefineDupNode TierBridgeOverwriteDefs TierBridgeOverwrite TierBridgeOverwriteEx TierBridgeE2E2.
 
@@ -749,33 +751,34 @@ Proof. exact overwrite_item_run. Qed.
 Print Assumptions TB_overwrite_item_run.
 Theorem TB_overwrite_released : forall dr csr x dx,
   ov_released dr csr = opt_list (rd_key dr) ++ opt_list (rd_vstr dr) ++ free_order csr /\
-  patch_released dr csr x dx = ov_released dr csr ++ [x] ++ opt_list (rd_key dx).
-Proof. exact (fun dr csr x dx => conj eq_refl eq_refl). Qed.
+  patch_released dr csr x dx = ov_released dr csr ++ [x] ++ old_key dx /\
+  old_key dx = (if is_const dx then [] else opt_list (rd_key dx)).
+Proof. exact (fun dr csr x dx => conj eq_refl (conj eq_refl eq_refl)). Qed.
 Theorem TB_overwrite_result_heap : forall h r x dr dx csr csx,
   patch_heap h r x dr dx csr csx =
-  put_struct r (None, None) (mk_dat (rd_no_key dx) (tid <$> csx)) (free_all (patch_released dr csr x dx) h).
+  put_struct r (None, None) (mk_dat (rd_unnamed dx) (tid <$> csx)) (free_all (patch_released dr csr x dx) h).
 Proof. exact (fun h r x dr dx csr csx => eq_refl). Qed.
 
 (** MAIN THEOREM (root case of add / replace / copy / move).  For a well-formed heap, a forest root [r] that is
-    not a reference node and whose key, if any, is owned, and a detached replacement root [x] whose key, if
-    any, is owned: the sequence returns normally with the explicit heap [h']; [h'] encodes the forest in
+    not a reference node and whose key, if any, is owned, and a detached replacement root [x] whose key may be
+    owned, CONSTANT or absent (the repaired code): the sequence returns normally with the explicit heap [h']; [h'] encodes the forest in
     which the root's subtree is replaced by the replacement's data and children UNDER THE ROOT'S IDENTITY;
     the ledger loses exactly the released blocks; and — provided the strings that the replacement's
     valuestring and children refer to are not among the released blocks — the reified new root is
-    [PatchDefs.set_key (reify replacement) None], the expression of PatchDefs.apply_patch at that point
+    [PatchDefs.unnamed (reify replacement)] (key dropped, flag cleared), the expression of PatchDefs.apply_patch at that point
     ([TB_patch_model_root_cases]) *)
 Theorem TB_patch_root_overwrite : forall h F r x dr dx csr csx,
   WF h F -> find_root r F = Some (T r dr csr) -> find_root x F = Some (T x dx csx) -> r <> x ->
-  is_ref dr = false -> key_owned dr -> key_owned dx ->
+  is_ref dr = false -> key_owned dr ->
   let F' := overwrite_root r x dx csx F in
   let bs := patch_released dr csr x dx in
   let h' := patch_heap h r x dr dx csr csx in
   patch_root_overwrite (Some r) (Some x) h = Ret (tt, h') /\
   WF h' F' /\
   owned F ≡ₚ bs ++ owned F' /\ lib_live h' = lib_live h ∖ list_to_set bs /\ (NoLeak h F -> NoLeak h' F') /\
-  find_root r F' = Some (T r (rd_no_key dx) csx) /\
+  find_root r F' = Some (T r (rd_unnamed dx) csx) /\
   ((forall b, b ∈ opt_list (rd_vstr dx) ++ (csx ≫= str_blocks) -> b ∉ bs) ->
-   reify (h_str h') (T r (rd_no_key dx) csx) = PatchDefs.set_key (reify (h_str h) (T x dx csx)) None).
+   reify (h_str h') (T r (rd_unnamed dx) csx) = PatchDefs.unnamed (reify (h_str h) (T x dx csx))).
 Proof. exact patch_root_overwrite_sim. Qed.
 Print Assumptions TB_patch_root_overwrite.
 
@@ -783,7 +786,7 @@ Print Assumptions TB_patch_root_overwrite.
     the string heap loses exactly the released blocks *)
 Theorem TB_patch_root_overwrite_frame : forall h F r x dr dx csr csx,
   WF h F -> find_root r F = Some (T r dr csr) -> find_root x F = Some (T x dx csx) -> r <> x ->
-  is_ref dr = false -> key_owned dr -> key_owned dx ->
+  is_ref dr = false -> key_owned dr ->
   owned F ≡ₚ patch_released dr csr x dx ++ owned (overwrite_root r x dx csx F) /\
   lib_live (patch_heap h r x dr dx csr csx) = lib_live h ∖ list_to_set (patch_released dr csr x dx) /\
   (NoLeak h F -> NoLeak (patch_heap h r x dr dx csr csx) (overwrite_root r x dx csx F)) /\
@@ -800,7 +803,7 @@ Print Assumptions TB_patch_root_overwrite_frame.
     utilities build *)
 Theorem TB_no_aliasing_overwrite : forall h F r x dr dx csr csx,
   WF h F -> find_root r F = Some (T r dr csr) -> find_root x F = Some (T x dx csx) -> r <> x ->
-  is_ref dr = false -> key_owned dr -> key_owned dx ->
+  is_ref dr = false -> key_owned dr ->
   is_ref dx = false -> Forall owns_strings csx ->
   forall b, b ∈ opt_list (rd_vstr dx) ++ (csx ≫= str_blocks) -> b ∉ patch_released dr csr x dx.
 Proof. exact patch_no_aliasing_of_owned. Qed.
@@ -839,8 +842,8 @@ Proof. exact (conj finish_add_root (conj apply_patch_root_add_replace apply_patc
 Print Assumptions TB_patch_model_root_cases.
 
 (** OUTSIDE the hypotheses, by concrete counterexample.  (1) A root whose key carries cJSON_StringIsConst (block
-    102 is the caller's: tag [Foreign]; every other hypothesis holds): overwrite_item releases the borrowed key —
-    [ForeignFree] — in both root sequences, although cJSON_Delete of the same root returns normally and leaves
+    102 is the caller's: tag [Foreign]; every other hypothesis holds): overwrite_item — which the repair f953f57
+    does not touch — releases the borrowed key, [ForeignFree], in both root sequences (repaired and pinned), although cJSON_Delete of the same root returns normally and leaves
     the block alone. *)
 Theorem TB_overwrite_const_key_refuted :
   WF owc_heap owc_F /\ find_root 1%positive owc_F = Some (T 1 owc_dr []) /\
@@ -848,23 +851,55 @@ Theorem TB_overwrite_const_key_refuted :
   is_const owc_dr = true /\ rd_key owc_dr = Some 102%positive /\ ~ key_owned owc_dr /\
   h_own owc_heap !! 102%positive = Some Foreign /\ 102%positive ∈ h_live owc_heap /\
   patch_root_overwrite (Some 1%positive) (Some 10%positive) owc_heap = Err ForeignFree /\
+  patch_root_overwrite_pinned (Some 1%positive) (Some 10%positive) owc_heap = Err ForeignFree /\
   patch_root_remove (Some 1%positive) owc_heap = Err ForeignFree /\
   (exists h', cJSON_Delete (Some 1%positive) owc_heap = Ret (tt, h') /\ 102%positive ∈ h_live h').
 Proof. exact overwrite_const_key_refuted. Qed.
 Print Assumptions TB_overwrite_const_key_refuted.
 
 (** (1') A REPLACEMENT whose key is a constant — what cJSON_Duplicate returns for a patch member added with
-    cJSON_AddItemToObjectCS(patch, "value", v): the duplicate keeps the caller's block and the flag — violates
-    [key_owned dx]: overwrite_item is fine, the final cJSON_free(object->string) of apply_patch releases the
-    caller's block ([ForeignFree]; in C: free() of a string literal) *)
-Theorem TB_overwrite_const_replacement_refuted :
+    cJSON_AddItemToObjectCS(patch, "value", v): the duplicate keeps the caller's block and the flag.  With the
+    PINNED code (before the repair f953f57 of /repo) the final cJSON_free(object->string) of apply_patch
+    releases the caller's block ([ForeignFree]; in C: free() of a string literal) … *)
+Theorem TB_overwrite_const_replacement_refuted_pinned :
   WF owk_heap owk_F /\ find_root 1%positive owk_F = Some (ow_num 1 1 None) /\
   find_root 10%positive owk_F = Some (T 10 owk_dx []) /\ key_owned (tdata (ow_num 1 1 None)) /\
   is_const owk_dx = true /\ rd_key owk_dx = Some 110%positive /\ ~ key_owned owk_dx /\
   h_own owk_heap !! 110%positive = Some Foreign /\ 110%positive ∈ h_live owk_heap /\
-  patch_root_overwrite (Some 1%positive) (Some 10%positive) owk_heap = Err ForeignFree.
-Proof. exact overwrite_const_replacement_refuted. Qed.
-Print Assumptions TB_overwrite_const_replacement_refuted.
+  patch_root_overwrite_pinned (Some 1%positive) (Some 10%positive) owk_heap = Err ForeignFree.
+Proof. exact overwrite_const_replacement_refuted_pinned. Qed.
+Print Assumptions TB_overwrite_const_replacement_refuted_pinned.
+
+(** … with the REPAIRED code a replacement carrying a constant key (a block [k] that is not a library block of
+    the forest) is fine: the call succeeds, [WF] holds for the overwritten forest, only the old root's blocks
+    and the shell are released, the borrowed block keeps its liveness, contents and tag, and the new root has
+    neither key nor cJSON_StringIsConst … *)
+Theorem TB_overwrite_const_replacement_ok : forall h F r x dr dx csr csx k,
+  WF h F -> find_root r F = Some (T r dr csr) -> find_root x F = Some (T x dx csx) -> r <> x ->
+  is_ref dr = false -> key_owned dr ->
+  is_const dx = true -> rd_key dx = Some k -> k ∉ owned F ->
+  let h' := patch_heap h r x dr dx csr csx in
+  patch_root_overwrite (Some r) (Some x) h = Ret (tt, h') /\
+  WF h' (overwrite_root r x dx csx F) /\
+  patch_released dr csr x dx = ov_released dr csr ++ [x] /\ k ∉ patch_released dr csr x dx /\
+  (k ∈ h_live h' <-> k ∈ h_live h) /\ h_str h' !! k = h_str h !! k /\ h_own h' !! k = h_own h !! k /\
+  rd_key (rd_unnamed dx) = None /\ is_const (rd_unnamed dx) = false.
+Proof. exact patch_const_replacement_ok. Qed.
+Print Assumptions TB_overwrite_const_replacement_ok.
+(** … and on the very heap of the pinned counterexample: block 110 ("value") stays live, borrowed and unchanged;
+    the new root reifies to the number 5 without key and without the flag *)
+Theorem TB_nonvacuous_const_replacement_ok :
+  110%positive ∉ owned owk_F /\
+  exists h',
+    patch_root_overwrite (Some 1%positive) (Some 10%positive) owk_heap = Ret (tt, h') /\
+    WF h' [T 1 (rd_unnamed owk_dx) []] /\
+    patch_released (tdata (ow_num 1 1 None)) [] 10 owk_dx = [10%positive] /\
+    110%positive ∈ h_live h' /\ h_own h' !! 110%positive = Some Foreign /\
+    h_str h' !! 110%positive = Some [118; 97; 108; 117; 101; 0] /\
+    rd_key (rd_unnamed owk_dx) = None /\ is_const (rd_unnamed owk_dx) = false /\
+    reify (h_str h') (T 1 (rd_unnamed owk_dx) []) = Tree.Node c_cJSON_Number None 5 (dbl_of_int 5) None [].
+Proof. exact overwrite_const_replacement_ok. Qed.
+Print Assumptions TB_nonvacuous_const_replacement_ok.
 
 (** (2) A "root" that has siblings — member 2 ("a") of the object 1 of [ex_heap] (members 2 3 4), as in
     cJSONUtils_ApplyPatches(cJSON_GetObjectItem(big, "a"), patches): the call returns normally, but the memcpy
@@ -906,10 +941,10 @@ Theorem TB_nonvacuous_overwrite :
   patch_released ow_dr ow_csr 10 ow_dx = [102; 101; 103; 2; 104; 105; 3; 10; 110]%positive /\
   exists h',
     patch_root_overwrite (Some 1%positive) (Some 10%positive) ow_heap = Ret (tt, h') /\
-    WF h' [T 1 (rd_no_key ow_dx) ow_csx; ow_num 20 7 None] /\
-    NoLeak h' [T 1 (rd_no_key ow_dx) ow_csx; ow_num 20 7 None] /\
+    WF h' [T 1 (rd_unnamed ow_dx) ow_csx; ow_num 20 7 None] /\
+    NoLeak h' [T 1 (rd_unnamed ow_dx) ow_csx; ow_num 20 7 None] /\
     lib_live h' = lib_live ow_heap ∖ list_to_set [102; 101; 103; 2; 104; 105; 3; 10; 110]%positive /\
-    reify (h_str h') (T 1 (rd_no_key ow_dx) ow_csx) =
+    reify (h_str h') (T 1 (rd_unnamed ow_dx) ow_csx) =
       Tree.Node c_cJSON_Array None 0 dzero None
         [Tree.Node c_cJSON_Number None 5 (dbl_of_int 5) None []; Tree.Node c_cJSON_String (Some [120]) 0 dzero None []].
 Proof. exact (conj (proj1 ow_result) ow_instance). Qed.
